@@ -34,7 +34,7 @@ EXTENDS Integers, Sequences, FiniteSets
 NoSnap   == 0
 NoCutoff == -1          \* "no expire_snapshots queued" for NewSnapshot's cutoffOrNone
 
-DefaultMlogMax == 100   \* metadata_manager.py:246 DEFAULT_PREVIOUS_VERSIONS_MAX
+DefaultMlogMax == 100   \* metadata_manager.py:254 DEFAULT_PREVIOUS_VERSIONS_MAX
 
 (* ------------------------------ helpers ------------------------------ *)
 SeqRange(s)  == {s[i] : i \in 1..Len(s)}
@@ -153,19 +153,28 @@ DeleteSnapshot(base, sid) ==
                            !.slog  = SelectSeq(base.slog, LAMBDA e : e # sid)]   \* :287-289
   IN IF base.cur = sid THEN [m1 EXCEPT !.cur = MostRecent(m1)] ELSE m1  \* :292-295
 
-(* ---- metadata_manager.py:248-283 _append_metadata_log ---- *)
-\* prevName = name of the metadata file the hint named when this commit read it (:190-201).
+(* ---- metadata_manager.py:256-291 _append_metadata_log ---- *)
+\* (line numbers of metadata_manager.py are those of the tree at commit ea475b4, i.e. after the
+\* OCC-stamp fix; the function bodies below line 183 are unchanged, shifted by 8 lines)
+\* prevName = name of the metadata file the hint named when this commit read it (:198-209).
 \* The entry's timestamp-ms (= base.last_updated_ms) is abstracted away.
-MlogBound(m) == IF m.mlogMax = 0 THEN DefaultMlogMax ELSE m.mlogMax    \* :271-279
+MlogBound(m) == IF m.mlogMax = 0 THEN DefaultMlogMax ELSE m.mlogMax    \* :279-287
 AppendMetadataLog(new, base, prevName) ==
-  IF Len(new.mlog) > 0 /\ LastOf(new.mlog) = prevName THEN new          \* :263-264 dedupe
-  ELSE LET log == Append(new.mlog, prevName)                            \* :266-269
+  IF Len(new.mlog) > 0 /\ LastOf(new.mlog) = prevName THEN new          \* :271-272 dedupe
+  ELSE LET log == Append(new.mlog, prevName)                            \* :274-277
            mx  == MlogBound(new)
-       IN [new EXCEPT !.mlog = IF mx >= 1 /\ Len(log) > mx              \* :280-281
+       IN [new EXCEPT !.mlog = IF mx >= 1 /\ Len(log) > mx              \* :288-289
                                THEN SubSeq(log, Len(log) - mx + 1, Len(log)) ELSE log]
 
-(* ---- metadata_manager.py:183 ---- *)
+(* ---- the OCC stamp ---- *)
+\* the tree BEFORE commit ea475b4 (metadata_manager.py:183 then): last_updated_ms = now.
+\* Kept for configurations that model the unrepaired stamp (coarse / frozen clock, C01 scenario S1).
 StampCommit(new, now) == [new EXCEPT !.lastUpd = now]
+\* the code AS IT IS (metadata_manager.py:188-191): the stamp changes with every commit, also when
+\* two commits land in the same millisecond or the clock steps back.  cur = the metadata the commit
+\* validated against (metadata_manager.py:161).
+StampCommitMono(new, cur, now) ==
+  [new EXCEPT !.lastUpd = IF now <= cur.lastUpd THEN cur.lastUpd + 1 ELSE now]
 
 (* ---- metadata_manager.py:161-180 the OCC comparison ---- *)
 \* NOTE: the code compares the RAW current_snapshot_id; None and -1 are different there but both
@@ -232,7 +241,7 @@ ByTimestamp(m, t) ==
       hits   == {i \in 1..Len(sorted) : sorted[i].ts <= t}
   IN IF hits = {} THEN NoSnap ELSE sorted[SetMaxInt(hits)].id
 
-(* ---- metadata_manager.py:334-343 get_snapshot_by_id: first match or None ---- *)
+(* ---- metadata_manager.py:342-351 get_snapshot_by_id: first match or None ---- *)
 ById(m, sid) == IF HasSnap(m.snaps, sid) THEN SnapById(m.snaps, sid).id ELSE NoSnap
 
 (* ---- a fresh table (metadata_manager.py:67-116 initialize_table) ---- *)
